@@ -19,6 +19,20 @@ Theorem C01_balance plant es swbs sts t b :
   delivered cs busmap swbs b == drawn cs busmap swbs b.
 Proof. intros cs busmap. apply balance_bus. Qed.
 
+(* Uniqueness (with C03): let every unit of the bus follow the sharing rules at SOME common load fraction l --
+   equal-sharing sources deliver rated x l, balancing storage / PTI-PTO draw -rated x l, fixed-share sources their
+   share, given-power units their set-point, stopped units nothing (`contrib l` is the signed power of a unit under
+   these rules) -- and let that assignment balance the bus.  Then l is the fraction the calculation uses: the
+   balance and the sharing rules together determine the solution. *)
+Theorem C01_unique_fraction plant es swbs sts t b l :
+  let cs := map (view_at t) plant in
+  let busmap := bus_at es swbs sts t in
+  wf cs swbs -> admissible cs swbs ->
+  qsum (map (contrib l) (filter (in_bus busmap b) cs)) == 0 ->
+  ~ avail_bus cs busmap swbs b == 0 ->
+  exists l0, load_bus cs busmap swbs b = Fin l0 /\ l == l0.
+Proof. intros cs busmap. apply unique_fraction. Qed.
+
 (* "bus" is the electrically connected group: the components summed for the bus of switchboard x are
    exactly those whose switchboard is linked to x by breakers closed AT STEP t (C02). *)
 Theorem C01_bus_is_connected_group es swbs sts t x c :
@@ -77,5 +91,6 @@ Example C01_example_values :
 Proof. vm_compute. repeat split. Qed.
 
 Print Assumptions C01_balance.
+Print Assumptions C01_unique_fraction.
 Print Assumptions C01_bus_is_connected_group.
 Print Assumptions C01_pointwise.
